@@ -1,8 +1,151 @@
 import Genshi.Wire
+import Genshi.WireCore
+import Genshi.Model.Tf
+import Genshi.Model.TfFill
 namespace Driver.C20
-open Genshi
+open Genshi Genshi.Sexp Genshi.Tf
 
-/-- stub: the model driver for C20 is not built yet -/
-def handle : List Sexp → Option Sexp := fun _ => none
+/-! wire format of marked streams, operations, form-filler configurations -/
+
+def markToSexp : Option Mark → Sexp
+  | none => .atom "N"
+  | some .enter => .atom "ENTER"
+  | some .inside => .atom "INSIDE"
+  | some .outside => .atom "OUTSIDE"
+  | some .exit => .atom "EXIT"
+  | some .attr => .atom "ATTR"
+  | some .brk => .atom "BREAK"
+
+def mevToSexp : MEv → Sexp
+  | .ev e => e.toSexp
+  | .attr t a => .list [.atom "AT", t.toSexp, attrsToSexp a]
+  | .brk => .atom "BR"
+
+def mevOfSexp? : Sexp → Option MEv
+  | .list [.atom "AT", t, a] => do
+      let t ← QName.ofSexp? t; let a ← attrsOfSexp? a; pure (.attr t a)
+  | .atom "BR" => some .brk
+  | x => (Event.ofSexp? x).map .ev
+
+def mstreamToSexp (s : MStream) : Sexp :=
+  .list (s.map fun (m, x) => .list [markToSexp m, mevToSexp x])
+
+def bufsToSexp (b : Bufs) (ids : List Nat) : Sexp :=
+  .list (ids.map fun i => .list [ofNat i, .list ((b.get i).map mevToSexp)])
+
+def res? : Sexp → Option Res
+  | .atom "N" => some .none
+  | .atom "T" => some .hit
+  | .atom "SELF" => some .self
+  | .list [.atom "A", a] => do let a ← attrsOfSexp? a; pure (.attrs a)
+  | .list [.atom "E", e] => do let e ← mevOfSexp? e; pure (.event e)
+  | .list [.atom "X", .str s] => some (.text s)
+  | _ => none
+
+def content? : Sexp → Option Content
+  | .list [.atom "STR", .str s] => some (.str s)
+  | .list [.atom "ev", s] => do let s ← streamOfSexp? s; pure (.evs s)
+  | .list [.atom "buf", n] => do let n ← n.toNat?; pure (.buf n)
+  | _ => none
+
+def op? : Sexp → Option Op
+  | .list [.atom "SEL", .list rs] => do let rs ← rs.mapM res?; pure (.select rs)
+  | .atom "SELFAIL" => some .selectFail
+  | .atom "invert" => some .invert
+  | .atom "end" => some .endSel
+  | .atom "empty" => some .empty
+  | .atom "remove" => some .remove
+  | .atom "unwrap" => some .unwrap
+  | .atom "buffer" => some .buffer
+  | .list [.atom "wrap", t, a] => do
+      let t ← QName.ofSexp? t; let a ← attrsOfSexp? a; pure (.wrap t a [])
+  | .list [.atom "wrapel", t, a, kids] => do
+      let t ← QName.ofSexp? t; let a ← attrsOfSexp? a; let kids ← streamOfSexp? kids; pure (.wrap t a kids)
+  | .list [.atom "attrfn", n, .str src] => do
+      let n ← QName.ofSexp? n; pure (.attrFn n fun _ a => attrGet a src)
+  | .list [.atom "replace", c] => do let c ← content? c; pure (.replace c)
+  | .list [.atom "before", c] => do let c ← content? c; pure (.before c)
+  | .list [.atom "after", c] => do let c ← content? c; pure (.after c)
+  | .list [.atom "prepend", c] => do let c ← content? c; pure (.prepend c)
+  | .list [.atom "append", c] => do let c ← content? c; pure (.append c)
+  | .list [.atom "attr", n, v] => do
+      let n ← QName.ofSexp? n; let v ← optStr? v; pure (.attr n v)
+  | .list [.atom "rename", n] => do let n ← QName.ofSexp? n; pure (.rename n)
+  | .list [.atom "copy", n, acc] => do let n ← n.toNat?; let acc ← acc.toBool?; pure (.copy n acc)
+  | .list [.atom "cut", n, acc] => do let n ← n.toNat?; let acc ← acc.toBool?; pure (.cut n acc)
+  | .list [.atom "map", all] => do let all ← all.toBool?; pure (.mapBang all)
+  | .list [.atom "SUBST", .str p, .str r, n] => do let n ← n.toNat?; pure (.subst p r n)
+  | .list [.atom "filter", d] => do
+      let d ← d.toBool?; pure (.filter (if d then dropComments else id))
+  | _ => none
+
+/-- buffer ids a chain writes -/
+def writes : List Op → List Nat
+  | [] => []
+  | .copy id _ :: ops => id :: writes ops
+  | .cut id _ :: ops => id :: writes ops
+  | _ :: ops => writes ops
+
+def readsOf : Op → Option Nat
+  | .replace (.buf id) => some id
+  | .before (.buf id) => some id
+  | .after (.buf id) => some id
+  | .prepend (.buf id) => some id
+  | .append (.buf id) => some id
+  | _ => none
+
+/-- The links of a chain are lazily interleaved generators; `buffer()` is the only barrier.
+    Stage-wise composition is exact unless, between two barriers, a buffer is written twice,
+    or read by an injector and written (in either order). `w`, `r`: ids written / read in the
+    current stage. -/
+def stagewise : List Nat → List Nat → List Op → Bool
+  | _, _, [] => true
+  | _, _, .buffer :: ops => stagewise [] [] ops
+  | w, r, .copy id _ :: ops => !w.contains id && !r.contains id && stagewise (id :: w) r ops
+  | w, r, .cut id _ :: ops => !w.contains id && !r.contains id && stagewise (id :: w) r ops
+  | w, r, op :: ops =>
+      match readsOf op with
+      | some id => !w.contains id && stagewise w (id :: r) ops
+      | none => stagewise w r ops
+
+def scalar? : Sexp → Option Fill.Scalar
+  | .list [.str t, tr, isn] => do
+      let tr ← tr.toBool?; let isn ← isn.toBool?; pure ⟨t, tr, isn⟩
+  | _ => none
+
+def val? : Sexp → Option Fill.Val
+  | .list [.atom "one", v] => do let v ← scalar? v; pure (.one v)
+  | .list (.atom "many" :: vs) => do let vs ← vs.mapM scalar?; pure (.many vs)
+  | _ => none
+
+def cfg? : Sexp → Option Fill.Cfg
+  | .list [name, id, pw, .list kvs] => do
+      let name ← optStr? name; let id ← optStr? id; let pw ← pw.toBool?
+      let kvs ← kvs.mapM fun
+        | .list [.str k, v] => do let v ← val? v; pure (k, v)
+        | _ => none
+      pure ⟨name, id, kvs, pw⟩
+  | _ => none
+
+def dedup (l : List Nat) : List Nat := l.foldl (fun acc x => if acc.contains x then acc else acc ++ [x]) []
+
+def handle : List Sexp → Option Sexp
+  | [.atom "chain", s, .list ops] => do
+      let s ← streamOfSexp? s
+      let ops ← ops.mapM op?
+      if !stagewise [] [] ops then pure (.atom "unmodelled") else
+      match transformMarked ops s with
+      | none => pure (.atom "err")
+      | some (out, b) =>
+          let ids := (dedup (writes ops)).mergeSort
+          pure (.list [.atom "ok", mstreamToSexp out, bufsToSexp b ids, streamToSexp (unmark out),
+                       ofBool (chainSelOk ops [] (markAll s))])
+  | [.atom "fill", c, s] => do
+      let c ← cfg? c
+      let s ← streamOfSexp? s
+      match Fill.fill c s with
+      | none => pure (.atom "err")
+      | some out => pure (.list [.atom "ok", streamToSexp out])
+  | _ => none
 
 end Driver.C20
